@@ -295,7 +295,7 @@ func runCRLHistory(h *Harness, cfg histCfg) {
 		r.resp = map[*CA]*Responder{w.A: respA, w.B: respB}
 	}
 	// a location whose URL differs from L1's only in the letter case of the path: a different resource (RFC 3986),
-	// here one that never delivers a CRL. It must not be mistaken for L1.
+	// here one that mostly fails to deliver a CRL (and has its own content when it does). It must not be mistaken for L1.
 	if tp.Chance(1, 3) {
 		lc := mk("L1c", "http://crl.sim/A.CRL", w.A, 3, "cdp")
 		lc.cdpKind, lc.cdp = "own", []string{lc.URL}
